@@ -659,10 +659,11 @@ def check_C16(sc, v, tier, seed, replay):
         raise HarnessError("MCUePop failed: " + r.error)
     v.add_tlc([r])
     evs, rejects = _stateless(sc, v, "rec-ue", "UePop", "ue.ndjson", seed, tier)
-    v.evaluations = sum(e["n"] for e in evs)
+    v.evaluations = sum(e.get("n", 1) for e in evs)
     for e in evs:
-        for s in e["supis"]:
+        for s in e.get("supis", []):
             v.distinct.add(tuple(s))
+    evs = [e for e in evs if e["ev"] == "Population"]
     v.samples = [{"imsi": e["imsi"], "n": e["n"], "first_supis": e["supis"][:2], "first_ran_ids": e["rans"][:2]} for e in evs[:2]]
     v.rule = ("populations created by CreateUE as the UE loops do: initial IMSIs with leading zeros, 2- and 3-digit MNC, MSIN near exhaustion, "
               "n in {1, 2, 10, 300 | 9999, 10000}; set-level invariants judged by UePop.tla; distinct = distinct SUPI")
